@@ -15,8 +15,9 @@ thread (after the leaf was started) or inline in `start()` on the thread of the 
 `k` (a sender copy / tuple element) is connected and started by one thread.
 
 The model is an acceptor: `step s e = none` means "the code as modelled cannot produce `e` in `s`".
-Ghost fields (`phase`, `owner`, `got`, `gotSig`, `sig`) record history; `step` never tests them
-except `phase k = unused` at `invConsume` (the harness uses every consumer index once).
+Ghost fields (`phase`, `owner`, `got`, `gotSig`, `sig`, `claimed`) record history; `step` never
+tests them except `phase k = unused` at `invConsume` (the harness uses every consumer index once)
+and `claimed = none` at `invComplete` (the predecessor is completed by one call).
 -/
 namespace PikaVerif.Shared
 
@@ -113,13 +114,14 @@ structure St where
   got : Nat → Nat              -- number of signals consumer k received
   gotSig : Nat → Option RSig
   aborted : Bool
+  claimed : Option Nat         -- the thread that invoked the (one) completion of the predecessor
 
 def init (kind : Kind) (storesStopped : Bool) : St :=
   { kind := kind, storesStopped := storesStopped,
     armed := decide (kind = .es), started := decide (kind = .es), pending := none, v := none,
     done := false, lock := none, conts := [], pst := .none, ptid := 0, pc := fun _ => .idle,
     sig := none, phase := fun _ => .unused, owner := fun _ => 0, got := fun _ => 0,
-    gotSig := fun _ => none, aborted := false }
+    gotSig := fun _ => none, aborted := false, claimed := none }
 
 /-- `split_tuple` keeps its continuations in an array indexed by the element. -/
 def insertSorted (k : Nat) : List Nat → List Nat
@@ -139,9 +141,11 @@ def variantIndex : Option Compl → Nat
 
 def step (s : St) : Ev → Option St
   | .invComplete t c =>
-    if s.aborted = false ∧ s.pc t = .idle ∧ s.sig = none ∧ s.pending = none ∧ c.ch ≤ 2 then
-      if s.armed then some { s with pc := upd s.pc t .completing }
-      else some { s with pending := some c, pc := upd s.pc t .retP }
+    -- the predecessor (a manual leaf) is completed by one call
+    if s.aborted = false ∧ s.pc t = .idle ∧ s.sig = none ∧ s.pending = none ∧ c.ch ≤ 2 ∧
+        s.claimed = none then
+      if s.armed then some { s with pc := upd s.pc t .completing, claimed := some t }
+      else some { s with pending := some c, pc := upd s.pc t .retP, claimed := some t }
     else none
   | .fire t c =>
     if s.aborted = false ∧ s.pst = .none then
